@@ -1,5 +1,19 @@
 package rules
 
-import "sort"
+import (
+	"go/types"
+	"sort"
+)
 
 func sortStrings(s []string) { sort.Strings(s) }
+
+// typesVar is an alias to keep rule signatures short.
+type typesVar = types.Var
+
+func typeNamed(t types.Type) *types.Named {
+	if p, ok := t.Underlying().(*types.Pointer); ok {
+		t = p.Elem()
+	}
+	n, _ := t.(*types.Named)
+	return n
+}
